@@ -54,7 +54,12 @@ def run(ctx):
     rets = [n for n in ast.walk(f.node) if isinstance(n, ast.Return)]
     refv = ast.unparse(rets[-1].value.elts[1]) if rets and isinstance(rets[-1].value, ast.Tuple) and len(rets[-1].value.elts) == 2 else None
     from ..pat import count
-    ok = refv is not None and has(f.node, f"{refv} = True") and has(f.node, f"{refv} = False") and len({id(n_) for n_, _ in find_all(f.node, "_arrays.pop(_refbytes)") if isinstance(n_, ast.Call)}) == 2 \
+    # the flag is "a reference row was found among the included haplotypes", written as a pair of assignments or as the comparison itself
+    r_ = ctx.recon(f.qname)
+    rv = [simplify(ev.data[0]) for ev in r_.events if ev.kind == 'return']
+    flag = rv[-1][1][1] if rv and rv[-1][0] == 'tuple' and len(rv[-1][1]) == 2 else None
+    flag_ok = flag is not None and flag[0] == 'cmp' and flag[1] == 'IsNot' and ('const', None) in (flag[2], flag[3])
+    ok = refv is not None and flag_ok and len({id(n_) for n_, _ in find_all(f.node, "_arrays.pop(_refbytes)") if isinstance(n_, ast.Call)}) == 2 \
         and has(f.node, "for _i, (_b, _h) in enumerate(_arrays.items()):\n    _BODY") and has(f.node, "_haps[_i] = _h") and has(f.node, "_vals[_i] = _p")
     ctx.check(bool(ok), 'R13.3/ref-observed', f.construct('ref_observed'), "ref_observed iff the all-zero haplotype passed", "ref_observed no longer reflects whether the reference passed", f.where())
     # application side
